@@ -30,6 +30,7 @@ ASSUMPTIONS = ["System V x86-64 calling convention", "assembler/linker preserve 
 RULES_DOC = dict(common.SHARED_DOC)
 RULES_DOC["R7"] = "= C03.R1: a join (and so a free of the descriptor and stack) returns only after it observed TERMINATED, i.e. after the target left its stack for good"
 RULES_DOC["R8"] = "= C12.R3: a unit that is suspending is not terminated (and freed) inside its suspend callback while its context is still linked for resumption"
+RULES_DOC["R10"] = "= C11.R10: the in/out stream pointer of a blocking helper stays current: no stale copy of *pp_local is used after a call that may resume the caller on another stream, and such a call is not handed the address of a throw-away copy"
 RULES_DOC["R9"] = "= C11.R6: after a switch that may resume the caller on another stream, the caller's stream pointer is re-read before it is used or returned (a ULT never saves its context into another ULT's descriptor)"
 RULES_DOC.update({
     "A1": "asm: complete frame (6 callee-saved regs, return address, FPU control) at the store of RSP into the old context; same layout in all savers",
@@ -374,13 +375,16 @@ def rule_R2(P, rep):
     for cb in sorted(cbs):
         bad = []
         for F in P.functions.values():
+            live = F.live_nodes()
             for i, nd in enumerate(F.nodes):
-                if nd and nd.get("k") == "ref" and nd.get("dk") == "func" and nd["n"] == cb:
+                if i in live and nd.get("k") == "ref" and nd.get("dk") == "func" and nd["n"] == cb:
                     pm = F.parent_map()
                     p = pm.get(i)
                     while p is not None and F.nodes[p].get("k") in ("cast", "load"):
                         p = pm.get(p)
                     pn = F.nodes[p] if p is not None else None
+                    if pn is None:
+                        continue    # a bare designator whose value is not used (argument of a flattened helper call)
                     ok = False
                     if pn and pn.get("k") == "call" and pn.get("fn"):
                         G = P.resolve_call(F, pn)
@@ -677,3 +681,4 @@ def run(P, rep, tier):
     common.borrow(rep, P, C12.rule_R3, "R8")
     from . import C11
     common.borrow(rep, P, C11.rule_R6, "R9")
+    common.borrow(rep, P, C11.rule_R10, "R10")
